@@ -37,6 +37,7 @@ namespace
     std::vector<Index> expect_graph;   // flattened like RankRec::parti_graphs
     std::string expect_name;
     std::vector<std::string> extern_names;   // name restriction handed to the control (empty: none)
+    int mesh_perm = 0;                       // mesh permutation strategy of the control (0: none), applied by create() to every patch level
   };
   Shared* SH = nullptr;
 
@@ -107,6 +108,15 @@ namespace
       // element weights disable every a-priori partitioning (extern, 2-level, explicit): use them with the naive one only
       if(cfg.parti == 1) { domain.weight_mode = cfg.weight_mode; domain.weight_seed = cfg.assign_seed; if(wrank == 0 && cfg.weight_mode != 0) sim::probe("weighted_naive_partitioner_world"); }
       domain.set_desired_levels(String(cfg.levels));
+      {
+        // a legal configuration of the control: after the partitioning every level of every patch is renumbered; halos and
+        // mesh parts are positional lists and have to follow (all oracles below work on geometric keys, not on numbers)
+        static const Geometry::PermutationStrategy ps[8] = {Geometry::PermutationStrategy::none, Geometry::PermutationStrategy::random,
+          Geometry::PermutationStrategy::lexicographic, Geometry::PermutationStrategy::colored, Geometry::PermutationStrategy::cuthill_mckee,
+          Geometry::PermutationStrategy::cuthill_mckee_reversed, Geometry::PermutationStrategy::geometric_cuthill_mckee,
+          Geometry::PermutationStrategy::geometric_cuthill_mckee_reversed};
+        if(SH->mesh_perm != 0) domain.set_permutation_strategy(ps[SH->mesh_perm]);
+      }
       if(!SH->mesh_text.empty())
       {
         // the explicit assignment arrives as an extern partition of the mesh file (the real PartitionSet lookup by size,
@@ -640,6 +650,8 @@ namespace
       for(Index r = 0; r < np; ++r) for(Index c = 0; c < ne; ++c) if(want[c] == r) sh.expect_graph.push_back(c);
       sim::probe("extern_partition_generated");
     }
+    sh.mesh_perm = int(sim::cfg_weighted("mesh_perm", {7, 1, 1, 1, 1, 1, 1, 1}));
+    if(sh.mesh_perm != 0) sim::probe("world_with_mesh_permutation");
     simmpi::world_begin(cfg.n, [cfg](int r) { S_::rank_body(r, cfg); });
     // genetic partitioner: the simulated clock advances a seeded amount per read, so every rank does a different,
     // small number of rounds
